@@ -347,7 +347,7 @@ func (p *recursionPickler) Pickle(x starlark.Value) (module, name string, args s
 
 // envPickler provides support for pickling functions and modules.
 //
-// - Builtins are pickled as (NEWOBJ "dawn" "Builtin" ())
+// - Builtins are pickled as (NEWOBJ "dawn" "Builtin" (name[, receiver]))
 // - Function code is pickled as (NEWOBJ "dawn" "FunctionCode" (module, globals, bytecode))
 // - Functions are pickled as (NEWOBJ "dawn" "Function" (defaults, freevars, code)).
 func envPickler(x starlark.Value) (module, name string, args starlark.Tuple, err error) {
@@ -355,7 +355,19 @@ func envPickler(x starlark.Value) (module, name string, args starlark.Tuple, err
 	case *function:
 		return "dawn", "Target", starlark.Tuple{starlark.String(x.label.String())}, nil
 	case *starlark.Builtin:
-		return "dawn", "Builtin", starlark.Tuple{}, nil
+		// A builtin is identified by its name and, if it is a bound method, by its receiver: plain data by value,
+		// anything else by its type.
+		args := starlark.Tuple{starlark.String(x.Name())}
+		switch recv := x.Receiver().(type) {
+		case nil:
+			// not a method
+		case starlark.NoneType, starlark.Bool, starlark.Int, starlark.Float, starlark.String, starlark.Bytes,
+			starlark.Tuple, *starlark.List, *starlark.Dict, *starlark.Set:
+			args = append(args, recv)
+		default:
+			args = append(args, starlark.String(recv.Type()))
+		}
+		return "dawn", "Builtin", args, nil
 	case *starlark.FunctionCode:
 		module, globals := x.ModuleEnv()
 		return "dawn", "FunctionCode", starlark.Tuple{module, globals, starlark.Bytes(x.Bytecode())}, nil
@@ -391,7 +403,7 @@ func (unassigned) Hash() (uint32, error) { return 0, nil }
 
 // envUnpickler provides support for unpickling functions and modules.
 //
-//   - Builtins are unpickled from (NEWOBJ "dawn" "Builtin" ()) into ()
+//   - Builtins are unpickled from (NEWOBJ "dawn" "Builtin" (name[, receiver])) into (name[, receiver])
 //   - Function code is unpickled from (NEWOBJ "dawn" "FunctionCode" (module, globals, bytecode))
 //     into a dictionary.
 //   - Functions are unpickled from (NEWOBJ "dawn" "Function" (defaults, freevars, code))
@@ -414,8 +426,9 @@ func envUnpickler(module, name string, args starlark.Tuple) (starlark.Value, err
 		}
 		return append(starlark.Tuple{starlark.String("recursive function")}, args...), nil
 	case "Builtin":
-		if len(args) != 0 {
-			return nil, fmt.Errorf("expected 0 args, got %v", len(args))
+		// Records written before builtins were told apart carry no arguments.
+		if len(args) > 2 {
+			return nil, fmt.Errorf("expected at most 2 args, got %v", len(args))
 		}
 		return args, nil
 	case "Mandatory", "Unassigned":
